@@ -2016,12 +2016,15 @@ impl<'a> Ctx<'a> {
                 };
 
                 let val = if let Some(e) = value.next() {
-                    let Some(result) = e
-                        .parse()
-                        .ok()
-                        .and_then(|e| 10_u64.checked_pow(e))
-                        .and_then(|e| base.checked_mul(e))
-                    else {
+                    // zero times any power of ten is zero, even when the power alone overflows
+                    let Some(result) = (if base == 0 {
+                        Some(0)
+                    } else {
+                        e.parse()
+                            .ok()
+                            .and_then(|e| 10_u64.checked_pow(e))
+                            .and_then(|e| base.checked_mul(e))
+                    }) else {
                         self.diagnostics.push(LoweringDiagnostic {
                             kind: LoweringDiagnosticKind::OutOfRangeIntLiteral,
                             range: int_literal.range(self.tree),
